@@ -14,6 +14,8 @@
                         (Props/C01front.v). *)
 From TV Require Import Base.Prelude Base.Utf8 Model.Datetime Model.Tree Model.Document Spec.SerdeData.
 From TV Require Import Model.De Model.SerdeRoutes Model.FrontEnds Proofs.FrontEnds Extract.Show.
+Require Import String.
+Open Scope string_scope.
 
 (* toml::from_str::<toml::Value> yields exactly the document's tree, tables sorted by key.
    FULL STATEMENT (C02_serde): forall s d v, parse_document s = POk d -> toml_from_str_value s = Ok v ->
@@ -42,9 +44,6 @@ Proof. exact private_key_misread. Qed.
 Print Assumptions C02_serde_refuted.
 
 (* Examples: the hypotheses hold of parsed documents, and the decoded value is the sorted tree *)
-Definition ex_doc : bytes :=
-  str "z = 1" ++ [x0a] ++ str "[b]" ++ [x0a] ++ str "y = 1979-05-27" ++ [x0a] ++ str "x = { q = [1, 2], p = ""s"" }" ++ [x0a]
-  ++ str "[[a]]" ++ [x0a] ++ str "k = true" ++ [x0a].
 Example C02_serde_example :
   exists d x, parse_document ex_doc = POk d /\ tree_of_doc d = Some x /\ tree_ready x = true /\ has_private_key x = false /\
               toml_from_str_value ex_doc = FOk (canon_value true x) /\
@@ -53,4 +52,4 @@ Example C02_serde_example :
                       (str "b", VTab [(str "x", VTab [(str "p", VStr (str "s")); (str "q", VArr [VInt 1; VInt 2])]);
                                       (str "y", VDatetime (mkDT (Some (mkDate 1979 5 27)) None None))]);
                       (str "z", VInt 1)].
-Proof. eexists. eexists. vm_compute. repeat split. Qed.
+Proof. exact serde_example. Qed.
